@@ -35,6 +35,13 @@ def add3 (a b : List R) : List R := [a.getD 0 0 + b.getD 0 0, a.getD 1 0 + b.get
 `_geodetic_to_cartesian(lat, lon, alt)` expressed in the parent (ITRF) orientation -/
 def stationPos (lat lon alt : R) : List R := geodeticToCartesian lat lon alt
 
+/-- `create_station(name, (lat_deg, lon_deg, alt))`: latitude and longitude are converted by `stationRadians` (translated from the
+source), the altitude is used as given; result: the offset of the centre link, the orientation matrix, the stored `latlonalt` -/
+def createStation (latd lond alt : R) : List R × List (List R) × List R :=
+  let lat := stationRadians latd
+  let lon := stationRadians lond
+  (stationPos lat lon alt, topoM lat lon, [lat, lon, alt])
+
 /-- `Frame.transform` from the parent (Earth-fixed) frame to the station frame, cartesian state
 `[x, y, z, vx, vy, vz]`: `m @ orb + offset` with `m = inv(expand(_m))` (block diagonal, no rate; the inverse of
 the rotation is its transpose) and `offset = -(m @ [station position, 0, 0, 0])`. -/
